@@ -487,6 +487,7 @@ class ParserField:
         self.output_transformer = None
         self.const = unprovided
         self.discriminator_map = {}
+        self.discriminator_types = ()
         self.positional_only = positional_only
 
         # ----------
@@ -676,6 +677,7 @@ class ParserField:
 
                     discriminator_map[const] = arg
                 self.discriminator_map = discriminator_map
+                self.discriminator_types = tuple(discriminator_map.values())
             else:
                 raise TypeError(
                     f"Field: {repr(self.attname)} specify a discriminator: "
@@ -1072,7 +1074,11 @@ class ParserField:
         raw = value
         # trans = context.transformer
 
-        if self.discriminator_map and value is not None:
+        if self.discriminator_types and isinstance(value, self.discriminator_types):
+            # already an instance of one of the branches (e.g. the result of an earlier parse):
+            # nothing to discriminate, the union takes it as any other value of a member type
+            pass
+        elif self.discriminator_map and value is not None:
             if not isinstance(value, Mapping):
                 try:
                     value = context.transformer.to_dict(value)
